@@ -178,3 +178,23 @@ package nbt
 //@   ensures Wfail(wk) ==> err != nil                                                [@errprop]
 //@   ensures !Wfail(wk) ==> err == nil                                               [@errprop]
 //@   modifies sink(w)                                                                [@frame]
+
+// ---------------------------------------------------------------- Encoder.Encode (trusted; used by C17)
+//
+// The reflective encoder is not verified. Callers under contract rely on this description of the
+// root of its output in file format: tag id chosen from the value's dynamic type (never TagEnd for a
+// non-nil value), big-endian 16-bit name length, the name; and, when the root is a compound, a
+// payload that starts with TagEnd or with a member header whose name is not empty (struct fields
+// and map keys of the library's message types have non-empty NBT keys).
+//@ func (*Encoder).Encode(e; v, tagName) (err)
+//@   trusted
+//@   let wk = sink(e.w)
+//@   let l0 = old(Wlen(wk))
+//@   let q = l0 + 3 + len(tagName)
+//@   requires !isnil(e.w) && len(tagName) < 32768
+//@   ensures all(k, 0, l0, Wout(wk, k) == old(Wout(wk, k)))
+//@   ensures err == nil && !e.networkFormat ==> Wlen(wk) >= q && Wout(wk, l0) == nbt_tagid(dyntype(v)) && int(be16(Woutrow(wk), l0 + 1)) == len(tagName)
+//@   ensures err == nil && !e.networkFormat && nbt_tagid(dyntype(v)) == 10 ==> Wlen(wk) >= q + 1 && (Wout(wk, q) == 0 || (Wlen(wk) >= q + 3 && int(be16(Woutrow(wk), q + 1)) != 0))
+//@   ensures Wfail(wk) ==> err != nil
+//@   ensures Wlen(wk) >= l0 && Wlen(wk) < 1<<40
+//@   modifies sink(e.w)
